@@ -483,6 +483,74 @@ def _chk_c09(model, xs, cs, key):
     return acc
 
 
+def _chk_c09_pos(model, xs, cs, key):
+    """In the all-positive weight state (after an `opt_teleport_positive` fault) and at positive inputs,
+    every PERMITTED dependency must be visible: transformer parameters of output i depend on every x_j,
+    j < i (claimed when hidden width >= dim) and on every condition coordinate; a coupling conditioner
+    depends on every coordinate of the first block and of the condition."""
+    import jax
+    import jax.numpy as jnp
+    from flowjax import bijections as B
+    from flowjax.wrappers import unwrap
+
+    um = unwrap(model)
+    nodes = []
+    _walk(um, 0, nodes)
+    acc = {}
+    xp = jnp.abs(xs) + 0.5
+    cp = None if cs is None else jnp.abs(cs) + 0.5
+
+    def merge(d):
+        for k, v in d.items():
+            r = jnp.min(jnp.where(jnp.isnan(v), jnp.inf, v), initial=jnp.inf)
+            acc[k] = jnp.minimum(acc[k], r) if k in acc else r
+
+    for node, nb in nodes:
+        if isinstance(node, B.MaskedAutoregressive):
+            dim = node.shape[-1]
+            net0 = getattr(node, "masked_autoregressive_mlp", None)
+            if net0 is None:
+                continue
+
+            def per(layer):
+                net = layer.masked_autoregressive_mlp
+                out = {}
+                for i in range(xp.shape[0]):
+                    ci = None if cp is None else cp[i]
+
+                    def params_of(x, c):
+                        nn_in = x if c is None else jnp.hstack((x, c))
+                        return jnp.reshape(net(nn_in), (dim, -1))
+
+                    Jx = jax.jacobian(params_of, argnums=0)(xp[i], ci)  # (dim, P, dim)
+                    lower = (jnp.arange(dim)[None, :] < jnp.arange(dim)[:, None])[:, None, :]
+                    out.setdefault("maf_permitted_x_dep_min", []).append(jnp.where(lower, Jx, jnp.inf))
+                    if ci is not None:
+                        Jc = jax.jacobian(params_of, argnums=1)(xp[i], ci)  # (dim, P, cond)
+                        out.setdefault("maf_cond_dep_min", []).append(Jc)
+                return {k: jnp.stack(v) for k, v in out.items()}
+
+            merge(_vm(per, nb)(node))
+        elif isinstance(node, B.Coupling) and getattr(node, "conditioner", None) is not None:
+            def per(layer):
+                d = layer.untransformed_dim
+                out = {}
+                for i in range(xp.shape[0]):
+                    ci = None if cp is None else cp[i]
+
+                    def params_of(xc, c):
+                        nn_in = xc if c is None else jnp.hstack((xc, c))
+                        return layer.conditioner(nn_in)
+
+                    out.setdefault("coupling_block_dep_min", []).append(jax.jacobian(params_of, argnums=0)(xp[i][:d], ci))
+                    if ci is not None:
+                        out.setdefault("coupling_cond_dep_min", []).append(jax.jacobian(params_of, argnums=1)(xp[i][:d], ci))
+                return {k: jnp.stack(v) for k, v in out.items()}
+
+            merge(_vm(per, nb)(node))
+    return acc
+
+
 def _run_check(name, fn, model, xs, cs, seed):
     import jax.random as jr
 
@@ -497,6 +565,19 @@ def _absmax(leaves):
         if np.issubdtype(a.dtype, np.floating) and a.size:
             m = max(m, float(np.max(np.abs(a))))
     return m
+
+
+def _after_positive_teleport(world, result):
+    """Labels of the states that directly follow an all-positive teleport."""
+    out = set()
+    steps = result["steps"]
+    for i, st in enumerate(steps):
+        if st["fault"] == E.F_TELEPORT_POS:
+            if i + 1 < len(steps):
+                out.add(f"step{i + 1}")
+            elif not world.get("return_best"):
+                out.add("returned")
+    return out
 
 
 def _states(world, result, box=None):
@@ -746,6 +827,7 @@ def oracle_c09(world, result):
         return _crashed(result), P, "strict"
     xs, cs = _probe_points(world, result)
     n_checked = n_vac = 0
+    pos_labels = _after_positive_teleport(world, result)
     for label, model, fin in _states(world, result):
         if not fin:
             n_vac += 1
@@ -767,6 +849,18 @@ def oracle_c09(world, result):
             V.append({"clause": "c09.coupling_first_block_changed", "detail": f"{label}: a coupling layer did not return its first block unchanged"})
         if "coupling_offdiag_absmax" in r and float(r["coupling_offdiag_absmax"]) != 0.0:
             V.append({"clause": "c09.coupling_cross_dependency", "detail": f"{label}: a transformed coordinate depends on another transformed coordinate (|d| = {float(r['coupling_offdiag_absmax'])})"})
+        if label in pos_labels and not V:
+            rp = _run_check("c09pos", _chk_c09_pos, model, xs, cs, world["key_seed"])
+            P["all_positive_states_checked"] = P.get("all_positive_states_checked", 0) + 1
+            m = world["model"]
+            relu_ok = True  # the zoo's conditioners use the default relu activation
+            if "maf_cond_dep_min" in rp and relu_ok and not float(rp["maf_cond_dep_min"]) > 0:
+                V.append({"clause": "c09.maf_condition_dependency_missing", "detail": f"{label}: with all-positive weights some transformer parameter does not depend on a condition coordinate (min derivative {float(rp['maf_cond_dep_min'])})"})
+            if "maf_permitted_x_dep_min" in rp and m.get("width", 0) >= m.get("dim", 99) and not float(rp["maf_permitted_x_dep_min"]) > 0:
+                V.append({"clause": "c09.maf_permitted_dependency_missing", "detail": f"{label}: hidden width {m.get('width')} >= dim {m.get('dim')} and all-positive weights, yet the parameters of some output i do not depend on some x_j, j < i (min derivative {float(rp['maf_permitted_x_dep_min'])})"})
+            for k, what in (("coupling_block_dep_min", "a first-block coordinate"), ("coupling_cond_dep_min", "a condition coordinate")):
+                if k in rp and not float(rp[k]) > 0:
+                    V.append({"clause": "c09.coupling_dependency_missing", "detail": f"{label}: with all-positive weights a transformer parameter of a coupling layer does not depend on {what} (min derivative {float(rp[k])})"})
         if V:
             break
     P["states_checked"] = n_checked
